@@ -55,6 +55,9 @@ FLAGS = [
     'clash_local',       # locals of the internal procedure shadow host locals
     'opt', 'opt_absent', 'kw', 'act_section', 'act_elem', 'act_expr', 'dummy_lb', 'dummy_assumed',
     'callee_whole', 'callee_return', 'site_in_loop', 'site_in_if', 'multi_site',
+    # (appended: expand_spec draws the flags by position, so the earlier flags keep their values per seed)
+    'reg_over_out',     # out(...) override listing variables that the region writes unconditionally before any read
+    'reg_out_incomplete',  # ... and the out(...) list (still non-empty) omits one such variable that is read after the region
 ]
 SIZES = {'subs': (1, 2), 'funs': (1, 2), 'sites': (1, 3), 'fill': (0, 3), 'regstmts': (1, 4)}
 SIZE_MIN = {'subs': 1, 'funs': 1, 'sites': 1, 'fill': 0, 'regstmts': 1}
@@ -245,6 +248,13 @@ def build(spec):
     if F('reg_temp'):
         decls.append(decl('ltmp', 'real'))
         decls.append(decl('lti', 'int'))
+    if F('reg_over_out'):
+        # pure results of the regions: not in env.vars (no generated statement touches them), defined in the prologue
+        # (a region inside an IF may not execute), overwritten first thing in every region, read in the epilogue
+        decls.append(decl('lout0', 'int'))
+        decls.append(decl('lout1', 'real'))
+        prologue.append(['assign', var('lout0'), lit(-7)])
+        prologue.append(['assign', var('lout1'), ['r', '-3.25']])
 
     def dt_env(e):
         """environment entries for the derived-type components (gen.py designators with a path)"""
@@ -437,6 +447,10 @@ def build(spec):
             stmts.insert(1, ['assign', var('lti'), ['b', '+', var('xi0'), lit(1)]])
             stmts.append(['assign', var('yr1'), ['b', '+', var('yr1'), ['b', '+', var('ltmp'), conv(var('lti'), 'int', 'real')]]])
             b.use('reg_temp')
+        if F('reg_over_out'):
+            # written unconditionally, not read inside the region (defined-not-used for the dataflow analysis)
+            stmts.insert(0, ['assign', var('lout0'), ['b', '+', var('xi0'), lit(2 + idx)]])
+            stmts.insert(1, ['assign', var('lout1'), ['b', '+', ['b', '*', var('xr0'), ['r', '1.5']], ['r', '%d.25' % (1 + idx)]]])
         if F('reg_call') and subs:
             call = GI.make_call(b, g, env, g.pick(subs), marked=False)
             if call is not None:
@@ -477,6 +491,14 @@ def build(spec):
             if names:
                 prag += f' inout({",".join(names[:2])})'
                 b.use('reg_over_inout')
+        if F('reg_over_out'):
+            outs = ['lout0', 'lout1']
+            if F('reg_out_incomplete'):
+                # the other result is left to loki's dataflow analysis; the list stays non-empty
+                outs = [outs[idx % 2]]
+                b.use('outline:incomplete-out-list')
+            prag += f' out({",".join(outs)})'
+            b.use('reg_over_out')
         out = [['pragma', prag]] + stmts + [['pragma', 'loki end outline']]
         where = 'top'
         if lv is not None:
@@ -574,6 +596,9 @@ def build(spec):
             body.append(['assign', var('yr0'), ['b', '+', var('yr0'), e]])
         else:
             body.append(['if1', e, ['assign', var('yi0'), ['b', '+', var('yi0'), lit(1)]]])
+    if F('reg_over_out'):
+        body.append(['assign', var('yi0'), ['b', '+', var('yi0'), var('lout0')]])
+        body.append(['assign', var('yr0'), ['b', '+', var('yr0'), var('lout1')]])
     if use_dt:
         body.append(['assign', var('yr0'), ['b', '+', var('yr0'), ['b', '+', ['d', [['ld', None], ['cr', None]]],
                                                                      ['f', 'sum', [['d', [['ld', None], ['ca', None]]]], {}]]]])
